@@ -107,17 +107,27 @@ ARGS = [
 ]
 
 
+ARGS_MORE = [
+    [["int", 9], ["int", 4], ["int", 3], ["float", 9], ["bool", 0]],
+    [["int", 100], ["int", 1], ["int", 1], ["float", 2], ["bool", 1]],
+    [["int", 2], ["int", 2], ["int", 2], ["float", 16], ["bool", 0]],
+    [["int", 31], ["int", 30], ["int", 4], ["float", 1], ["bool", 1]],
+]
+
+
 def build_cases(ctx):
     cases = []
+    args = ARGS if ctx.quick else ARGS + ARGS_MORE
+    scheds = ["min", "max"] if ctx.quick else ["min", "max", "rand:1", "rand:2"]
     for name, body in shapes(ctx):
         if "return" not in body:
             body = body + "\n    return 0"
         sig = "def main(x: int, y: int, w: int, f: float, b: bool) -> int:\n    "
         reg = HEADER + "\n@guppy\n" + sig + body + "\n"
         comp = HEADER + "\n@guppy.comptime\n" + sig + body + "\n"
-        cases.append({"id": name + "|guppy", "shape": name, "mode": "guppy", "src": reg, "entry": "main", "args": ARGS, "scheds": ["min", "max"]})
+        cases.append({"id": name + "|guppy", "shape": name, "mode": "guppy", "src": reg, "entry": "main", "args": args, "scheds": scheds})
         cases.append({"id": name + "|comptime", "shape": name, "mode": "comptime", "src": reg, "impl_src": comp, "entry": "main",
-                      "args": ARGS, "scheds": ["min", "max"]})
+                      "args": args, "scheds": scheds})
     return cases
 
 
